@@ -497,6 +497,9 @@ def gen_c11(tier, seed, env_text):
     for t in ctxtd:
         fk, cont = rng.choice([("module", ()), ("instance", ("Cls",)), ("static", ("Cls",))])
         add(t, rng.choice(ctxtd), t, t if rng.random() < 0.3 else None, 3, "c11_typeddict", fk=fk, cont=cont)
+    for t in rng.sample(ctxtd, min(len(ctxtd), 40)):      # generators that only yield (Iterator[...]) TypedDict-bearing types
+        add(INT, INT, None, t, 3, "c11_typeddict_yield_only")
+        add(INT, INT, T("cls", "NoneType"), T("list", "", [t]), 3, "c11_typeddict_yield_only")
     n0 = len(cases)
     storable = [t for t in ctx if "tuplevar" not in kinds_in(t, set())]     # Tuple[T, ...] cannot be stored (C08 finding)
     for t in rng.sample(storable, min(len(storable), 200)) + rng.sample(ctxtd, min(len(ctxtd), 60)):    # through the store and `monkeytype stub`
